@@ -167,6 +167,9 @@ def run(ctx):
     d = None
     total_checks = 0
     nonvac = 0
+    import kanirun
+    failing = [h[0] for h in table if res.get(h[0], {}).get("status") == "FAILED"]
+    cexs = kanirun.playback_many(failing, [], jobs=ctx.get("jobs", 8)) if failing else {}
     for h in table:
         name = h[0]
         r = res.get(name)
@@ -182,9 +185,8 @@ def run(ctx):
         samples.append({"harness": name, "kind": h[1], "party_sizes": h[2], "gates_or_insts": h[3], "outputs": h[4], "unwind": h[5],
                         "status": r["status"], "checks": r.get("checks"), "cover_satisfied": r.get("cover_sat"), "seconds": r.get("time")})
         if r["status"] == "FAILED":
-            # obtain the concrete counterexample and replay it natively
-            c2, out2 = kani(["--harness", name, "-Z", "concrete-playback", "--concrete-playback=print"], target, timeout=1800)
-            vals = playback_values(out2)
+            # the concrete counterexample is rebuilt from the printed kani::any() values and replayed natively
+            vals = cexs.get(name, [])
             try:
                 cex = decode_counterexample(h, vals)
             except StopIteration:
